@@ -4,6 +4,7 @@ import (
 	"crypto/md5"
 	"encoding/hex"
 	"io"
+	"strings"
 	"sync"
 
 	"github.com/johannesboyne/gofakes3"
@@ -102,7 +103,7 @@ func (db *Backend) ListBucket(name string, prefix *gofakes3.Prefix, page gofakes
 
 	var lastMatchedPart string
 
-	if page.Marker != "" && prefix.Match(page.Marker, &match) && match.CommonPrefix {
+	if page.Marker != "" && prefix.Match(page.Marker, &match) && match.CommonPrefix && strings.HasPrefix(page.Marker, match.MatchedPart) {
 		// The marker lies inside a common prefix that the previous page has
 		// already reported: the remaining keys below it must not report it again.
 		lastMatchedPart = match.MatchedPart
